@@ -2,6 +2,7 @@
    Only statements, `exact` proofs and Print Assumptions. *)
 From Coq Require Import ZArith List Bool.
 From Cobra.GPR Require Import Syntax Escape Remover Proofs ProofsParse ProofsEscape Tables Check.
+From Cobra.GPR Require Import ProofsRepl ProofsEscapeFull ProofsLex ProofsReparse ProofsCurrent.
 From Cobra.Gen Require Import GprTables.
 Import ListNotations.
 Open Scope Z_scope.
@@ -77,15 +78,47 @@ Theorem C08_parse_fuel_mono : forall n m l ts r,
 Proof. exact parse_fuel_mono. Qed.
 Print Assumptions C08_parse_fuel_mono.
 
-(* identifier escaping.  Full statement (any table satisfying the decidable side condition, every
-   admissible identifier): `escape_ok_statement` in GPR/ProofsEscape.v.  PROVED SO FAR: the
-   instance for the generated tables on a finite family (all words of length <= 3 over
-   {a,C,O,1,_} + every table character, every keyword, every keyword with one such character
-   before/after/in the middle), by computation.  Missing: the general induction over the
-   identifier (the argument is: the reserved word COBRA occurs exactly once in every escape, at
-   the same offset, and never across a boundary, so str.replace finds exactly the escapes).  *)
-Definition C08_escape_ok_statement : Prop := escape_ok_statement.
+(* identifier escaping, GENERAL theorem: for any replacement table, keyword list and prefix
+   satisfying the decidable side conditions and EVERY admissible identifier (any length: word
+   characters and table characters, not containing the reserved word COBRA, replaced form not
+   beginning with the prefix, not and/or), GPRCleaner.visit_Name undoes the escaping of
+   from_string and the escaped identifier is a Python name that is not a keyword.
+   Proof: ProofsRepl.v (the reserved word occurs in the replaced text exactly at offset 2 of
+   every escape and never across a character boundary, so str.replace finds exactly the escapes)
+   + ProofsEscapeFull.v.  Side condition `wf_prefix` (the prefix does not begin a keyword or
+   and/or) is new: without it the statement is false (C08_escape_ok_needs_wf_prefix). *)
+Theorem C08_escape_ok : forall T kws P,
+  wf_repl T P = true -> wf_kws kws = true -> wf_prefix P kws = true ->
+  forall w, id_okb T P w = true ->
+    str_eqb (unescape_name T P (length P) (escape_word T kws P w)) w &&
+    is_py_name kws (escape_word T kws P w) = true.
+Proof. exact escape_ok. Qed.
+Print Assumptions C08_escape_ok.
 
+Definition C08_escape_ok_statement : Prop := escape_ok_statement.
+Theorem C08_escape_ok_statement_holds : C08_escape_ok_statement.
+Proof. exact escape_ok. Qed.
+Print Assumptions C08_escape_ok_statement_holds.
+
+Example C08_escape_ok_needs_wf_prefix :
+  exists T kws P w, wf_repl T P = true /\ wf_kws kws = true /\ id_okb T P w = true /\
+                    escape_ok_at T kws P w = false.
+Proof. exact escape_ok_needs_wf_prefix. Qed.
+
+(* the replacement loop alone: a character-wise substitution whose inverse is the loop of
+   visit_Name, for every text in which the reserved word does not occur *)
+Theorem C08_repl_roundtrip : forall T P w, wf_repl T P = true -> containsb anchor w = false ->
+  undo_repl T (apply_repl T w) = w.
+Proof. exact repl_roundtrip. Qed.
+Print Assumptions C08_repl_roundtrip.
+
+(* ... for the tables regenerated from gene.py in this run *)
+Theorem C08_escape_ok_current : forall w, id_okb repl_table esc_prefix_kw w = true ->
+  escape_ok_at repl_table kw_list esc_prefix_kw w = true.
+Proof. exact escape_ok_current. Qed.
+Print Assumptions C08_escape_ok_current.
+
+(* the same claim on a finite family, by computation (kept: independent of the proof above) *)
 Theorem C08_escape_ok_partial : escape_ok_on_family = true.
   (* = forallb (fun w => negb (id_okb repl_table esc_prefix_kw w) ||
                          escape_ok_at repl_table kw_list esc_prefix_kw w) family *)
@@ -108,13 +141,45 @@ Theorem C08_tables_wf : tables_wf = true.
 Proof. exact tables_wf_current. Qed.
 Print Assumptions C08_tables_wf.
 
-(* Full character-level statement: reading back what to_string wrote gives the same rule.
-   PROVED in parts (C08_print_render, C08_parse_print, C08_escape_ok); the composition through
-   the character-level lexer (word segmentation of the escaped text, "()" removal) is validated
-   by the correspondence check only (item ISame 0/3 of Check.v) — hence `_statement`.       *)
+(* Character level: the tokenizer inverts the rendering of token lists of the printed shape
+   (atoms and operators alternate) whose names are words other than and/or ... *)
+Theorem C08_lex_render : forall ts st, alt st ts = true -> names_sat lexname ts ->
+  lex false false (render ts) = Some ts.
+Proof. exact lex_render. Qed.
+Print Assumptions C08_lex_render.
+
+(* ... and the escaping steps of from_string act on such a text name by name *)
+Theorem C08_escape_str_render : forall T kws P ts, wf_repl T P = true -> wf_kws kws = true ->
+  alt true ts = true -> names_sat (idchars T) ts ->
+  escape_str T kws P (render ts) = render (map (ren (escape_word T kws P)) ts) /\
+  names_sat wordy (map (ren (escape_word T kws P)) ts).
+Proof. exact escape_str_render. Qed.
+Print Assumptions C08_escape_str_render.
+
+(* Full character-level statement: reading back what to_string wrote gives the same rule (single-
+   child nodes collapsed), for any tables with the side conditions ... *)
+Theorem C08_reparse_general : forall T kws P t,
+  wf_repl T P = true -> wf_kws kws = true -> wf_prefix P kws = true ->
+  wf t = true -> (forall g, In g (genes t) -> id_okb T P g = true) ->
+  from_string T kws P (length P) (print false t) = Parsed (Some (collapse t)).
+Proof. exact reparse. Qed.
+Print Assumptions C08_reparse_general.
+
+(* ... in particular for the tables regenerated from gene.py in this run *)
 Definition C08_reparse_statement : Prop :=
   forall t, wf t = true -> (forall g, In g (genes t) -> id_okb repl_table esc_prefix_kw g = true) ->
     from_string_cur (print false t) = Parsed (Some (collapse t)).
+
+Theorem C08_reparse : C08_reparse_statement.
+Proof. exact reparse_current. Qed.
+Print Assumptions C08_reparse.
+
+(* on the trees the parser produces the round trip is the identity *)
+Theorem C08_reparse_exact : forall t, wf2 t = true ->
+  (forall g, In g (genes t) -> id_okb repl_table esc_prefix_kw g = true) ->
+  from_string_cur (to_string (Some t)) = Parsed (Some t).
+Proof. exact reparse_exact_current. Qed.
+Print Assumptions C08_reparse_exact.
 
 (* Non-vacuity / concrete instances (computed with the generated tables). *)
 Definition ex_rule : gpr :=
